@@ -28,7 +28,7 @@ func init() { fw.Register(&c20{}) }
 func (p *c20) ID() string { return "C20" }
 
 func (p *c20) Rule() string {
-	return "case = one generated scenario (gen.Scen: 1-4 flows of every flow type over every action/router/wait type, localisation, contact, trigger, 0-6 resumes msg/wait_timeout/run_expiration/dial, session re-read from JSON at seeded waits) or one directed scenario (one flow per action type that saves a result or holds a fixed reference, on the success and failure path of its fake service, followed by a msg wait with timeout / a dial wait). After every engine call that returned normally, for every run with a loaded flow: (1) every result stored in the sprint (diff of run.Results() + run_result_changed events) must have its key in Inspect().results and its non-empty category in a non-empty listed category set; (2) on a resume the exit by which the waiting step left must be in waiting_exits; (3) every fixed reference held by an executed action, every asset named by the sprint's events and attributable to a fixed reference, and every global/field named in a template of an executed action / routed router / begun dial wait (base language + the translation the run used; templates are scanned by an independent ~100-line model of the template syntax, expressions must parse) must be in dependencies. Not demanded: query-group re-evaluation, static groups cleared by a status change, all_groups, expression references (name_match / email_match), the default ticket topic. Non-trivial = the scenario stored >= 1 result, touched >= 1 fixed asset or left a wait; distinct = SHA of (assets, trigger, resumes, options)."
+	return "case = one generated scenario (gen.Scen: 1-4 flows of every flow type over every action/router/wait type, localisation, contact, trigger, 0-6 resumes msg/wait_timeout/run_expiration/dial, session re-read from JSON at seeded waits; then, from a stream of its own: every call_resthook re-drawn over a pool of 15 resthooks covering every combination of subscriber answers (none / 2xx / 410 / 503 / connection error / non-JSON, alone and mixed, + the undefined hook), call_webhook URLs re-drawn over every answer of the fake transport, and in 60% of the scenarios references to globals / contact fields that occur nowhere else (keys zgN / zfN, 9+6 syntactic forms, defined with empty or non-empty values or left missing) PLANTED with p in {0.3,0.6,1} per slot into every free string property of every action, router and wait - those the flow spec calls templates and those it does not (say_msg.audio_url, set_run_result.category, resthook slug, names of all references, category names) - and into their translations) or one directed scenario (one flow per action type that saves a result or holds a fixed reference, on every outcome path of its fake service incl. one case per resthook of the pool, followed by a msg wait with timeout / a dial wait; plus planted-*: one scenario per action type / router / dial wait with EVERY slot planted and translated, run with an English and a Spanish contact). After every engine call that returned normally, for every run with a loaded flow: (1) every result stored in the sprint (diff of run.Results() + run_result_changed events) must have its key in Inspect().results and its non-empty category in a non-empty listed category set; (2) on a resume the exit by which the waiting step left must be in waiting_exits; (3) every fixed reference held by an executed action, every asset named by the sprint's events and attributable to a fixed reference, and every global/field named in a template of an executed action / routed router / begun dial wait (base language + the translation the run used; templates are scanned by an independent ~100-line model of the template syntax, expressions must parse) must be in dependencies; (3b, builds with the verif tag) every global/field named in a template the run is KNOWN to have evaluated - reported by the template observer runs.VerifTemplateObserver, whichever property it came from - must be in dependencies (signature names the holding property, e.g. say_msg.audio_url). Not demanded: query-group re-evaluation, static groups cleared by a status change, all_groups, expression references (name_match / email_match), the default ticket topic, templates the scanner does not model. Non-trivial = the scenario stored >= 1 result, touched >= 1 fixed asset, evaluated a template naming an asset or left a wait; distinct = SHA of (assets, trigger, resumes, options)."
 }
 
 func (p *c20) Directed() []string { return directedNames() }
@@ -68,6 +68,38 @@ func (p *c20) Floors(tier string) []string {
 	for _, k := range []string{"Success", "Failure", "Skipped"} {
 		fl = append(fl, "saved_category."+k)
 	}
+	// every category a fixed-category action can give its result, on every outcome path of its (fake) service
+	for _, k := range []string{"call_webhook.Success", "call_webhook.Failure", "call_resthook.Success", "call_resthook.Failure", "call_classifier.Success", "call_classifier.Failure", "call_classifier.Skipped",
+		"transfer_airtime.Success", "transfer_airtime.Failure", "open_ticket.Success", "open_ticket.Failure"} {
+		fl = append(fl, "saved."+k)
+	}
+	for _, k := range []string{"missing_resthook", "subscribers:none", "subscribers:success", "subscribers:gone", "subscribers:gone+success", "subscribers:error5xx", "subscribers:error5xx+gone", "subscribers:error5xx+gone+success",
+		"subscribers:connection_error", "subscribers:connection_error+gone", "subscribers:success_not_json", "subscribers:success+success_not_json"} {
+		fl = append(fl, "service_path.call_resthook."+k)
+	}
+	for _, k := range []string{"success", "error5xx", "gone", "connection_error", "success_not_json"} {
+		fl = append(fl, "service_path.call_webhook."+k)
+	}
+	// references planted into properties that are NOT templates by the flow spec (they must simply never be evaluated)
+	fl = append(fl, "planted.scenarios", "planted.references")
+	for _, k := range []string{"say_msg.audio_url", "say_msg.audio_url(translation)", "set_run_result.category", "set_run_result.category(translation)", "call_resthook.resthook",
+		"enter_flow.flow.name", "start_session.flow.name", "start_session.contacts.name", "send_broadcast.contacts.name", "add_contact_groups.groups.name", "remove_contact_groups.groups.name", "add_input_labels.labels.name",
+		"set_contact_channel.channel.name", "set_contact_field.field.name", "open_ticket.topic.name", "open_ticket.assignee.name", "send_msg.template.name", "call_classifier.classifier.name", "request_optin.optin.name",
+		"router:switch.categories.name", "router:random.categories.name", "router:switch.categories.name(translation)"} {
+		fl = append(fl, "planted.in."+k)
+	}
+	if observerAvailable {
+		fl = append(fl, "evaluated.templates", "clause.dep.evaluated", "clause.dep.evaluated.global", "clause.dep.evaluated.field", "clause.dep.evaluated.planted_reference")
+		// every property the flow spec says is a template was seen being evaluated with a planted reference in it
+		for _, k := range []string{"send_msg.text", "send_msg.attachments", "send_msg.quick_replies", "send_msg.template_variables", "send_broadcast.text", "send_broadcast.attachments", "send_broadcast.quick_replies",
+			"send_broadcast.contact_query", "send_broadcast.legacy_vars", "send_broadcast.groups.name_match", "start_session.contact_query", "start_session.legacy_vars", "start_session.groups.name_match",
+			"say_msg.text", "play_audio.audio_url", "call_webhook.url", "call_webhook.headers", "call_webhook.body", "call_classifier.input", "open_ticket.body", "open_ticket.assignee.email_match",
+			"send_email.addresses", "send_email.subject", "send_email.body", "set_contact_field.value", "set_contact_language.language", "set_contact_name.name", "set_contact_timezone.timezone",
+			"set_run_result.value", "add_contact_urn.path", "add_contact_groups.groups.name_match", "remove_contact_groups.groups.name_match", "add_input_labels.labels.name_match",
+			"router:switch.operand", "router:switch.cases.arguments", "router:switch.wait.phone"} {
+			fl = append(fl, "clause.dep.evaluated.by."+k)
+		}
+	}
 	for _, e := range []string{"contact_field_changed", "contact_groups_changed", "input_labels_added", "flow_entered", "session_triggered", "ticket_opened.topic", "ticket_opened.assignee", "msg_created.template", "service_called.classifier", "optin_requested"} {
 		fl = append(fl, "clause.dep.event."+e)
 	}
@@ -106,6 +138,7 @@ func (p *c20) Run(c fw.Case) fw.Result {
 		return res
 	}
 	res.Fingerprint = scen.Fingerprint()
+	plantedCensus(scen, &res)
 	rn, err := drive.Load(scen, c.Seed)
 	if err != nil {
 		res.Discarded = "unloadable: " + errClass(err.Error())
@@ -145,6 +178,72 @@ func (p *c20) Run(c fw.Case) fw.Result {
 }
 
 // ---------------------------------------------------------------------------------------------------
+
+var plantedKeyRe = regexp.MustCompile(`z[gf][0-9]+`)
+
+// plantedCensus counts, per holding property, the planted references of the scenario as it is (read back from its
+// JSON): the evidence that properties which are NOT templates by the flow spec carried a reference too.
+func plantedCensus(scen *gen.Scenario, res *fw.Result) {
+	b, err := json.Marshal(scen.Assets["flows"])
+	if err != nil || !plantedKeyRe.Match(b) {
+		return
+	}
+	var fls []map[string]any
+	if json.Unmarshal(b, &fls) != nil {
+		return
+	}
+	res.Count("planted.scenarios", 1)
+	var walk func(prefix string, v any)
+	walk = func(prefix string, v any) {
+		switch t := v.(type) {
+		case string:
+			if n := len(plantedKeyRe.FindAllString(t, -1)); n > 0 {
+				res.Count("planted.references", int64(n))
+				res.Count("planted.in."+prefix, int64(n))
+			}
+		case []any:
+			for _, x := range t {
+				walk(prefix, x)
+			}
+		case map[string]any:
+			for k, x := range t {
+				if strings.HasSuffix(prefix, ".headers") {
+					walk(prefix, x)
+				} else {
+					walk(prefix+"."+k, x)
+				}
+			}
+		}
+	}
+	for _, f := range fls {
+		items := map[string]string{}
+		for _, n := range arr(f["nodes"]) {
+			for _, a := range arr(obj(n)["actions"]) {
+				items[str(obj(a)["uuid"])] = str(obj(a)["type"])
+				walk(str(obj(a)["type"]), a)
+			}
+			if rt := obj(obj(n)["router"]); rt != nil {
+				pre := "router:" + str(rt["type"])
+				walk(pre, rt)
+				for _, c := range arr(rt["cases"]) {
+					items[str(obj(c)["uuid"])] = pre + ".cases"
+				}
+				for _, c := range arr(rt["categories"]) {
+					items[str(obj(c)["uuid"])] = pre + ".categories"
+				}
+			}
+		}
+		for _, lm := range obj(f["localization"]) {
+			for u, it := range obj(lm) {
+				if pre, ok := items[u]; ok {
+					for prop, v := range obj(it) {
+						walk(pre+"."+prop+"(translation)", v)
+					}
+				}
+			}
+		}
+	}
+}
 
 func observe(res *fw.Result, rec *drive.CallRecord) {
 	res.Count("engine_calls", 1)
@@ -523,7 +622,11 @@ func (ck *checker) resultStored(sv *sprintView, run flows.Run, fi *flowInfo, key
 		}
 	}
 	if category != "" {
-		res.Seen("saved_categories", category)
+		if strings.Contains(category, "@") {
+			res.Seen("saved_categories", "<with planted reference text>")
+		} else {
+			res.Seen("saved_categories", category)
+		}
 		if category == "Success" || category == "Failure" || category == "Skipped" {
 			res.Count("saved_category."+category, 1)
 		}
@@ -807,7 +910,11 @@ func indexStrings(idx map[string]string, prefix string, v any) {
 		}
 		sort.Strings(keys)
 		for _, k := range keys {
-			indexStrings(idx, prefix+"."+k, t[k])
+			if strings.HasSuffix(prefix, ".headers") {
+				indexStrings(idx, prefix, t[k]) // header names are data, not structure
+			} else {
+				indexStrings(idx, prefix+"."+k, t[k])
+			}
 		}
 	}
 }
